@@ -53,6 +53,9 @@ def main():
             setattr(fasteners.InterProcessReaderWriterLock, name, delayed)
 
     log = open(spec["log"], "a", buffering=1)
+    # what this interpreter's string hashing is seeded with (every worker is started with its own PYTHONHASHSEED, as any
+    # two processes of a user are: nothing that is derived from hash(str) is the same in two of them)
+    log.write(json.dumps({"hello": wid, "hashseed": os.environ.get("PYTHONHASHSEED"), "probe": hash("c04-probe")}) + "\n")
     payload = spec.get("payload", "bytes")
     readonly = bool(spec.get("readonly"))
     if spec.get("wait_exists"):
@@ -64,17 +67,21 @@ def main():
                 log.close()
                 return
             time.sleep(0.002)
-    if payload == "mlib":
+    if payload in ("mlib", "clib"):
         import molli as ml
 
+        Lib = ml.MoleculeLibrary if payload == "mlib" else ml.ConformerLibrary
         if readonly:
-            col = ml.MoleculeLibrary(spec["path"])
+            col = Lib(spec["path"])
         else:
-            col = ml.MoleculeLibrary(spec["path"], readonly=False, bufsize=spec["bufsize"])
+            col = Lib(spec["path"], readonly=False, bufsize=spec["bufsize"])
         base = ml.Molecule.load_mol2(ml.files.dendrobine_mol2)
 
         def enc(key):
-            m = ml.Molecule(base, name=key)
+            if payload == "clib":
+                m = ml.ConformerEnsemble(base, n_conformers=2, name=key)
+            else:
+                m = ml.Molecule(base, name=key)
             m.attrib["tag"] = hashlib.sha256(key.encode()).hexdigest()
             return m
 
